@@ -120,3 +120,14 @@ def homogeneous(expr, symbols, lam=None):
     lam = lam or sp.Symbol("lam", positive=True)
     scaled = expr.subs({s: lam * s for s in symbols}, simultaneous=True)
     return A.equal(scaled, lam * expr)
+
+
+
+LOSSY_OPS = ("IDiv", "IRem", "Cast:FloatToInt", "Idiv_euclid", "Irem_euclid")
+
+
+def lossy_ops(v):
+    """Truncating / rounding-to-integer operators occurring in a value graph. The real-arithmetic model treats them as exact,
+    so a formula that is supposed to be a pure float computation must not contain any (integer division of a nanosecond count
+    before the conversion to seconds silently drops up to one unit)."""
+    return [t for t in subterms(v) if isinstance(t, Term) and t.op in LOSSY_OPS]
